@@ -46,7 +46,18 @@ SAFE_BUILTINS = {"str": str, "int": int, "len": len, "range": range, "abs": abs,
                  "bool": bool, "list": list, "tuple": tuple, "set": set, "any": any, "all": all, "sorted": sorted,
                  "isinstance": isinstance, "True": True, "False": False, "None": None, "type": type, "dict": dict,
                  "float": float, "hex": hex, "enumerate": enumerate, "zip": zip, "reversed": reversed, "sum": sum,
-                 "Exception": Exception, "ValueError": ValueError, "map": map, "filter": filter}
+                 "Exception": Exception, "ValueError": ValueError, "map": map, "filter": filter, "iter": iter}
+
+
+def _next(it, *default):
+    # generator expressions are evaluated eagerly to lists: next(<list>) takes the first element
+    try:
+        return next(iter(it), *default) if not hasattr(it, "__next__") else next(it, *default)
+    except StopIteration:
+        raise Raised("StopIteration")
+
+
+SAFE_BUILTINS["next"] = _next
 SAFE_METHODS = {(str, "find"), (str, "startswith"), (str, "endswith"), (str, "strip"), (str, "split"), (str, "lower"),
                 (str, "upper"), (str, "replace"), (str, "isdigit"), (list, "append"), (list, "index"), (list, "count"),
                 (list, "copy"), (dict, "get"), (dict, "keys"), (dict, "values"), (dict, "items"), (tuple, "index"),
@@ -68,8 +79,9 @@ def _own_walk(fn):
 
 
 class Evaluator:
-    def __init__(self, func_node, globals_env=None, call_hook=None, max_steps=20000, obj_types=(), attr_hook=None):
+    def __init__(self, func_node, globals_env=None, call_hook=None, max_steps=20000, obj_types=(), attr_hook=None, name_hook=None):
         self.func = func_node
+        self.name_hook = name_hook       # name -> value for names that are neither local, global nor builtin (function references)
         self.genv = dict(globals_env or {})
         self.call_hook = call_hook       # (name, args, kwargs) -> value, or raises Unsupported
         self.max_steps = max_steps
@@ -81,8 +93,11 @@ class Evaluator:
         names = [x.arg for x in a.posonlyargs + a.args]
         env = {}
         defaults = a.defaults
+        supplied = set(names[:len(args)]) | set(kwargs)
         for i, d in enumerate(defaults):
-            env[names[len(names) - len(defaults) + i]] = self._const_default(d)
+            pname = names[len(names) - len(defaults) + i]
+            if pname not in supplied:
+                env[pname] = self._const_default(d)
         if a.vararg:
             env[a.vararg.arg] = tuple(args[len(names):])
             args = args[:len(names)]
@@ -96,7 +111,13 @@ class Evaluator:
             if n not in env:
                 raise Unsupported(f"missing argument {n}")
         self.steps = 0
-        is_gen = any(isinstance(n, (ast.Yield, ast.YieldFrom)) for n in _own_walk(self.func))
+        is_gen = getattr(self.func, "_is_gen", None)
+        if is_gen is None:
+            is_gen = any(isinstance(n, (ast.Yield, ast.YieldFrom)) for n in _own_walk(self.func))
+            try:
+                self.func._is_gen = is_gen       # cached on the node: the walk is expensive for the repository's very large functions
+            except AttributeError:
+                pass
         if is_gen:
             # a generator function is evaluated eagerly: the values it yields are collected in order (the interpreted code base
             # consumes its generators completely, and they have no side effects that depend on laziness)
@@ -110,7 +131,12 @@ class Evaluator:
     def _const_default(self, d):
         if isinstance(d, ast.Constant):
             return d.value
-        raise Unsupported("non-constant default")
+        # a literal container.  (Python creates it once per definition and shares it between calls; the evaluations of one analysis
+        # must stay independent of each other, so every call gets a fresh one — sharing through a mutable default is C12's lint.)
+        try:
+            return ast.literal_eval(d)
+        except (ValueError, SyntaxError):
+            raise Unsupported("non-constant default")
 
     def _tick(self):
         self.steps += 1
@@ -259,6 +285,8 @@ class Evaluator:
                 return self.genv[e.id]
             if e.id in SAFE_BUILTINS:
                 return SAFE_BUILTINS[e.id]
+            if self.name_hook is not None:
+                return self.name_hook(e.id)
             raise Unsupported(f"unknown name {e.id}")
         if isinstance(e, ast.BoolOp):
             if isinstance(e.op, ast.And):
@@ -410,7 +438,7 @@ class Evaluator:
             if f.id in self.genv and callable(self.genv[f.id]):
                 return self.genv[f.id](*args, **kwargs)
             if f.id in ("str", "int", "len", "range", "abs", "min", "max", "bool", "list", "tuple", "set", "any", "all",
-                        "sorted", "isinstance", "type", "dict", "float", "hex", "enumerate", "zip", "reversed", "sum", "map", "filter"):
+                        "sorted", "isinstance", "type", "dict", "float", "hex", "enumerate", "zip", "reversed", "sum", "map", "filter", "next", "iter"):
                 try:
                     return SAFE_BUILTINS[f.id](*args, **kwargs)
                 except (ValueError, TypeError) as ex:
